@@ -12,6 +12,11 @@
 //! Print-span time (a blocked sink) is carried separately on the clock event
 //! and belongs to neither, wherever the read that observes it falls; the
 //! remainder of the first read of a resume operation is in neither as well.
+//!
+//! Whether the solver went on past an iteration boundary is read off the first
+//! scheduling point (`Event::Yield`, logged once per iteration record) after it:
+//! those sit inside the numerical work of an iteration, so the answer does not
+//! depend on which timers exist or on whether the implementation prints.
 
 use crate::simcore::{Ev, EvKind};
 use clarabel::verif::Event as Label;
